@@ -26,7 +26,12 @@ class Outcome:
         self.extra = {}
 
     def summary(self):
-        return {'result': self.result, 'error': self.error, 'events': self.events, 'globals': self.globals}
+        """Comparable / digestible view. Failure-report lines keep only the function name: their message
+        text may embed object addresses (repr of a function) and is not part of any property."""
+        err = self.error
+        if err is not None and err[0] == 'host':
+            err = err[:2]
+        return {'result': self.result, 'error': err, 'events': norm_events(self.events), 'globals': self.globals}
 
 
 def build_globals(spec):
